@@ -67,15 +67,19 @@ Definition normalize (u : measure) : measure :=
 Definition mk_pdf (diag : bool) (R D : nat) (Sig : nat -> mat) (mu : nat -> vec)
     (Lam : option (nat -> mat)) (hS : option lvec) : measure :=
   let Sig' := tabb R D D Sig in let mu' := tabbv R D mu in
-  let: (Lam', hS') :=
+  (* projections instead of a pattern-matching let, so that uR / uD of the result compute *)
+  let Lam' :=
     match Lam with
-    | None => (tabb R D D (fun k => (inv_ld LS diag D (Sig' k)).1),
-               tabl R (fun k => (inv_ld LS diag D (Sig' k)).2))
-    | Some L => (tabb R D D L,
-                 match hS with
-                 | Some h => tabl R h
-                 | None => tabl R (fun k => hln LS (detn D (Sig' k)))   (* slogdet *)
-                 end)
+    | None => tabb R D D (fun k => (inv_ld LS diag D (Sig' k)).1)
+    | Some L => tabb R D D L
+    end in
+  let hS' :=
+    match Lam with
+    | None => tabl R (fun k => (inv_ld LS diag D (Sig' k)).2)
+    | Some _ => match hS with
+                | Some h => tabl R h
+                | None => tabl R (fun k => hln LS (detn D (Sig' k)))   (* slogdet *)
+                end
     end in
   (* nu = einsum("abc,ab->ac", Lambda, mu) *)
   let nu := tabbv R D (fun k => vmat D (mu' k) (Lam' k)) in
